@@ -385,11 +385,11 @@ def getattr_(it, base, attr, node, fr):
             u.of_frame = base
             return u
         if attr == "shape":
-            return Seq([Val(call("nrows", const(base.space.id if base.space else 0))),
+            return Seq([Val((base.space.nrows() if base.space else call("nrows", const(0)))),
                         K(len(base.order)) if base.order is not None and not base.open else Val(call("ncols", const(base.name)))],
                        "tuple")
         if attr == "empty":
-            return Val(call("empty", const(base.space.id if base.space else 0)))
+            return Val((mk("eq", base.space.nrows(), const(0)) if base.space else call("empty", const(0))))
         if attr == "index":
             u = Unk(call("index", const(base.space.id if base.space else 0)), space=base.space)
             u.of_frame = base
@@ -404,7 +404,7 @@ def getattr_(it, base, attr, node, fr):
         return Method(base, attr)
     if isinstance(base, Arr):
         if attr == "shape":
-            n = K(1) if base.single_row else Val(call("nrows", const(base.space.id if base.space else 0)))
+            n = K(1) if base.single_row else Val((base.space.nrows() if base.space else call("nrows", const(0))))
             if not base.single_row:
                 n.shape_of = base
                 n.axis = 0
@@ -436,7 +436,7 @@ def getattr_(it, base, attr, node, fr):
         if attr in ("loc", "iloc", "at", "iat"):
             return Indexer(base, attr)
         if attr == "shape":
-            n_ = Val(call("nrows", const(base.space.id if base.space else 0)))
+            n_ = Val((base.space.nrows() if base.space else call("nrows", const(0))))
             n_.shape_of = base
             n_.axis = 0
             k_ = Val(call("ncols", base.term))
@@ -460,6 +460,13 @@ def getattr_(it, base, attr, node, fr):
         # e.g. series.str.replace -> Method(Method(series,'str'),'replace')
         return Method(base, attr)
     if isinstance(base, Unk):
+        if attr == "shape" and getattr(base, "is_matrix", False) and getattr(base, "rot", None) is not None:
+            # Rotation.as_matrix(): (3, 3) for a single rotation, (N, 3, 3) for a batch
+            r_ = base.rot
+            if r_.space is None and not getattr(r_, "batched", False) and not getattr(r_, "from_2d", False):
+                return Seq([K(3), K(3)], "tuple")
+            n_ = Val(r_.space.nrows()) if r_.space is not None else Val(call("nrows", r_.term))
+            return Seq([n_, K(3), K(3)], "tuple")
         if attr == "shape" and getattr(base, "rank", None) is not None:
             nm = tm.show(base.term)
             a_ = Arr([sym(f"{nm}.n{k}") for k in range(base.rank)], 1)
@@ -471,7 +478,7 @@ def getattr_(it, base, attr, node, fr):
             return u
         if attr == "T":
             u = Unk(T("transpose", base.term), space=base.space)
-            for k_ in ("is_mat", "is_matrix", "rot"):
+            for k_ in ("is_mat",):
                 if hasattr(base, k_):
                     setattr(u, k_, getattr(base, k_))
             return u
@@ -627,6 +634,27 @@ def getitem(it, base, idx, node, fr):
             v_ = T("rotapply", T("transpose", R), e(pyval(a_) % 3))
         if v_ is not None:
             return Arr([T("item", v_, 0), T("item", v_, 1), T("item", v_, 2)], 2, base.space)
+    if isinstance(base, Unk) and getattr(base, "is_matrix", False) and getattr(base, "rot", None) is not None \
+            and isinstance(idx, Seq) and len(idx.items) == 2 and base.rot.space is None and not getattr(base.rot, "batched", False) \
+            and not getattr(base.rot, "from_2d", False):
+        # the matrix of a single rotation: M[:, j] is column j (image of e_j), M[i, :] is row i
+        a_, b_ = idx.items
+        e = lambda k: T("vec", *[const(1.0 if i_ == k else 0.0) for i_ in range(3)])
+        R = base.rot.term
+        v_ = None
+        if isinstance(a_, SliceV) and a_.is_full() and is_pyconst(b_) and isinstance(pyval(b_), int):
+            v_ = T("rotapply", R, e(pyval(b_) % 3))
+        elif isinstance(b_, SliceV) and b_.is_full() and is_pyconst(a_) and isinstance(pyval(a_), int):
+            v_ = T("rotapply", T("transpose", R), e(pyval(a_) % 3))
+        if v_ is not None:
+            return Arr([T("item", v_, 0), T("item", v_, 1), T("item", v_, 2)], 1, None)
+    if isinstance(base, Unk) and getattr(base, "is_matrix", False) and getattr(base, "rot", None) is not None \
+            and isinstance(idx, Seq) and len(idx.items) == 2 and (base.rot.space is not None or getattr(base.rot, "batched", False)) \
+            and isinstance(idx.items[0], SliceV) and idx.items[0].is_full() and is_pyconst(idx.items[1]) and isinstance(pyval(idx.items[1]), int):
+        # the matrices of a batch (N, 3, 3): M[:, i] is row i of every matrix = column i of the inverse rotation
+        i_ = pyval(idx.items[1]) % 3
+        v_ = T("rotapply", T("transpose", base.rot.term), T("vec", *[const(1.0 if k_ == i_ else 0.0) for k_ in range(3)]))
+        return Arr([T("item", v_, 0), T("item", v_, 1), T("item", v_, 2)], 2, base.space)
     if isinstance(base, imgdom.CompStack):
         r_ = imgdom.stack_getitem(base, idx)
         if r_ is None:
@@ -1033,7 +1061,7 @@ def frame_set_columns(it, f, value, node):
         f.notes.append(("columns-renamed-unknown", 0))
         it.record("setcolumns", "columns", [f, value], {}, node)
         return
-    if getattr(f, "int_columns", False) and not f.written:
+    if getattr(f, "int_columns", False) and not f.written and f.order == list(range(len(f.order or []))):
         # a table read without a header: its width is whatever the file has; naming k columns asserts width k
         f.cols = {n: sym(f"csv:{i}") for i, n in enumerate(names)}
         f.order = list(names)
